@@ -587,7 +587,7 @@ class Gen:
             opts.append("bad-first-type")
         opts.append("bad-syntax")
         opts += ["dup-param", "wild", "wild", "missing-export", "macro-argc"]
-        opts += ["no-include", "no-library", "endif", "hash-error", "percent", "scan-err", "bad-import2", "bad-partial"]
+        opts += ["no-include", "no-library", "endif", "hash-error", "percent", "scan-err", "bad-import2", "bad-partial", "bare-ctor"]
         if self.vars:
             opts += ["enum-lit", "bad-lhs", "multi-lhs"]
         if self.macros:
@@ -658,6 +658,8 @@ class Gen:
         if k == "bad-with-import":
             # a rejected step that imports a type first: the import must not stay in force
             return self.add(Form("bad:" + k, 'import from Integer; %s << (z0 + "a") << newline;' % self.d.out, good=False))
+        if k == "bare-ctor":		# a declaration whose type is a constructor without its arguments
+            return self.add(Form("bad:" + k, "%s: %s;" % (self.fresh("q"), r.choice(["Array", "List", "Record"])), good=False))
         if k == "bad-partial":
             # one step holding an acceptable definition of a fresh name and an ill-typed one: the whole
             # step is rejected, the first name must stay undefined (it is defined properly later)
